@@ -3,7 +3,8 @@
     map only permutes its three lists and the sets inside. *)
 From Coq Require Import String List NArith Bool Lia Permutation.
 From V Require Import Base.Strings Base.Result Model.Registry Model.Settings Model.Subst
-  Model.Builders Model.BuildersSpec Model.Reach Model.ValidateSpec Proofs.BuildersProofs.
+  Model.Derives Model.Builders Model.BuildersSpec Model.Reach Model.ValidateSpec Proofs.DerivesProofs
+  Proofs.BuildersProofs Proofs.OrderFree.
 Import ListNotations.
 Open Scope list_scope.
 
@@ -182,6 +183,49 @@ Section Sets.
     - destruct (ve_derives e2); [destruct D as [_ D]; specialize (D eq_refl); discriminate|reflexivity].
   Qed.
 End Sets.
+
+(** ** the same for builder histories: derive / attribute calls in any order *)
+Lemma dreg_equiv_side_perm a b rc :
+  dreg_equiv a b ->
+  NoDup (map (fun kd : tykey * derives => k_key (fst kd)) (side a rc)) ->
+  NoDup (map (fun kd : tykey * derives => k_key (fst kd)) (side b rc)) ->
+  kmap_perm (side a rc) (side b rc).
+Proof.
+  intros (_ & _ & H) NA NB. split; [exact NA|]. split; [exact NB|].
+  assert (Hsome : forall key, is_some (kmap_get (side a rc) key) = is_some (kmap_get (side b rc) key)).
+  { intros key. destruct (H key) as (S1 & S2 & _). destruct rc; assumption. }
+  split.
+  - intros key. pose proof (Hsome key) as E.
+    pose proof (kmap_get_none_iff (side a rc) key) as Ka. pose proof (kmap_get_none_iff (side b rc) key) as Kb.
+    destruct (kmap_get (side a rc) key) as [da|], (kmap_get (side b rc) key) as [db|]; cbn [is_some] in E;
+      try discriminate.
+    + split; intros _.
+      * destruct (in_dec string_dec key (map (fun kd : tykey * derives => k_key (fst kd)) (side b rc))) as [I|I];
+          [exact I|]. apply Kb in I. discriminate.
+      * destruct (in_dec string_dec key (map (fun kd : tykey * derives => k_key (fst kd)) (side a rc))) as [I|I];
+          [exact I|]. apply Ka in I. discriminate.
+    + split; intros I; exfalso; [apply (proj1 Ka eq_refl I)|apply (proj1 Kb eq_refl I)].
+  - intros ka da kb db Ia Ib E.
+    pose proof (kmap_get_in_nodup _ _ _ NA Ia) as Ga. pose proof (kmap_get_in_nodup _ _ _ NB Ib) as Gb.
+    destruct (H (k_key ka)) as (_ & _ & A1 & A2 & A3 & A4).
+    unfold kmap_get_or_empty in *. rewrite <- E in Gb.
+    destruct rc; cbn [side] in *; rewrite Ga, Gb in *; split; intros x; [apply A3|apply A4|apply A1|apply A2].
+Qed.
+
+Theorem validate_histories_as_sets r ops1 ops2 :
+  Permutation (filter is_derive_op ops1) (filter is_derive_op ops2) ->
+  let st1 := fst (run_ops ops1) in
+  let st2 := fst (run_ops ops2) in
+  segs_functional ((dr_specific (b_dreg st1) ++ dr_recursive (b_dreg st1)) ++
+                   (dr_specific (b_dreg st2) ++ dr_recursive (b_dreg st2))) ->
+  Permutation (b_subs st1) (b_subs st2) ->
+  verror_same (validate (b_subs st1) (b_dreg st1) r) (validate (b_subs st2) (b_dreg st2) r).
+Proof.
+  intros P st1 st2 SF PS. pose proof (order_irrelevant ops1 ops2 P) as E.
+  apply validate_as_sets; [| |exact SF|exact PS].
+  - exact (dreg_equiv_side_perm _ _ false E (history_keys_nodup ops1 false) (history_keys_nodup ops2 false)).
+  - exact (dreg_equiv_side_perm _ _ true E (history_keys_nodup ops1 true) (history_keys_nodup ops2 true)).
+Qed.
 
 (** ** non-vacuity: two hash orders of the same settings; the errors differ as lists *)
 Lemma NoDup_2 {A} (x y : A) : x <> y -> NoDup [x; y].
